@@ -57,7 +57,14 @@ type Program struct {
 	AsmFile []*asm.File
 	Files   []string // all source files analysed (Go + .s)
 	Problems []string // structural assertion failures (fail closed)
-	NInstr  int
+	// FnProblems: structural problems located in one function (scoped by the property drivers)
+	FnProblems []FnProblem
+	NInstr     int
+}
+
+type FnProblem struct {
+	Fn  *ssa.Function
+	Msg string
 }
 
 // ShortName gives a stable construct key for a function: "(*Point).Add",
@@ -319,7 +326,7 @@ func StaticCallee(c ssa.CallInstruction) (callee *ssa.Function, onceLit *ssa.Fun
 // assertStructure checks the facts of DESIGN §1 that the engines rely on.
 func (p *Program) assertStructure() {
 	bad := func(f *ssa.Function, in ssa.Instruction, what string) {
-		p.Problems = append(p.Problems, fmt.Sprintf("STRUCTURE %s %s: %s", p.Rel(in.Pos()), ShortName(f), what))
+		p.FnProblems = append(p.FnProblems, FnProblem{Fn: f, Msg: fmt.Sprintf("STRUCTURE %s %s: %s", p.Rel(in.Pos()), ShortName(f), what)})
 	}
 	for _, pk := range p.Pkgs {
 		for imp := range pk.Imports {
